@@ -77,7 +77,28 @@ let main (args : string list) : unit =
                 end
               | _ -> "BAD layer-spec")
          in
-         print_endline (go (bytes_of_hex outer) layers)
+         (* the verdict is that of the Gallina specification Spec.TunnelPeel.peel (proved against the builders in
+            Props/C06b.v); layers here are kind:raw:sport:dport:vni:ethertype:index:seq:src:dst with seq = - when the
+            header must not carry one.  The hand-written walk above only words the reason of a refusal. *)
+         let spec_of l =
+           match String.split_on_char ':' l with
+           | [kind; raw; sp; dp; vni; et; ix; seq; src; dst] ->
+             let k = (match kind with "vxlan" -> M.KVxlan | "gre" -> M.KGre | "erspan1" -> M.KErspan1 | _ -> M.KErspan2) in
+             Some { M.t_kind = k; M.t_raw = (raw = "1"); M.t_src = n_of_dec src; M.t_dst = n_of_dec dst;
+                    M.t_sport = n_of_dec sp; M.t_dport = n_of_dec dp; M.t_vni = n_of_dec vni; M.t_et = n_of_dec et;
+                    M.t_ix = n_of_dec ix; M.t_seq = (if seq = "-" then None else Some (n_of_dec seq)) }
+           | _ -> None in
+         let specs = List.map spec_of layers in
+         if List.mem None specs then print_endline (go (bytes_of_hex outer) layers) else
+         let specs = List.map (function Some x -> x | None -> assert false) specs in
+         (match M.peel specs (bytes_of_hex outer) with
+          | Some inner -> print_endline ("OK " ^ hex_of_bytes inner)
+          | None ->
+            let old = List.map (fun l -> match String.split_on_char ':' l with
+                                         | [a;b;c;d;e;f;g;h;_;_] -> String.concat ":" [a;b;c;d;e;f;g;(if h = "-" then "0" else h)]
+                                         | _ -> l) layers in
+            let why = go (bytes_of_hex outer) old in
+            print_endline (if String.length why >= 3 && String.sub why 0 3 = "BAD" then why else "BAD outer-header"))
        | [] -> print_endline ""
        | toks -> (match Cmd_frames.answer toks with Some a -> print_endline a | None -> print_endline "BAD"))
     done
